@@ -98,6 +98,14 @@ def _min_only(name, static, i, seen, abs_i=0):
     return MINFULL if seen else NONE
 
 
+def _birth_partial(name, static, i, seen, abs_i=0):
+    # a region defined by a chunk finds its first 4 KiB in that very chunk
+    # (re-presentation) and the rest in the next one
+    if static:
+        return FULL
+    return ('bytes', 4096) if i == 0 else FULL
+
+
 SCHEDULES = [
     Schedule('giant', 1, _giant, 'the whole stream as one chunk'),
     Schedule('two-step', 4, _two_step, 'every region arrives complete, one '
@@ -108,6 +116,9 @@ SCHEDULES = [
     Schedule('small-then-giant', 4, _small_then_giant, 'a first chunk of 5 '
              'bytes, then everything else in one chunk (regions defined '
              'by the second chunk complete within it)'),
+    Schedule('birth-partial', 6, _birth_partial, 'the chunk that defines a '
+             'region also holds its first 4 KiB; the region completes with '
+             'the next chunk'),
     Schedule('min-stop', 6, _min_only, 'regions complete at exactly '
              'min_length bytes when they have one, else fully'),
 ]
@@ -174,7 +185,8 @@ class StreamModel:
             if born == i and not static:
                 st['represent'][id(region)] = True
             level = sched.policy(name, static, i - (0 if static else born),
-                                 seen if sched.name not in ('giant', 'small-then-giant')
+                                 seen if sched.name not in ('giant', 'small-then-giant',
+                                                           'birth-partial')
                                  else True, i)
             interp2.effect('capture', name, K(i), level)
             model.fill(interp2, region, level)
@@ -220,21 +232,29 @@ class StreamModel:
             if kind == 'region':
                 off = interp.guide(interp.termify(
                     region.fields.get('offset')))
-            floor = 0
-            regs = insp.fields.get('_capture_regions')
-            for k, r in zip(regs.keys, regs.vals):
-                if r is region or (r.cls is not None and
-                                   r.cls.is_subclass(self.end_cls)):
-                    continue
-                d = r.fields.get('data')
-                if not (isinstance(d, T) and d.op == 'bytes'):
-                    continue
-                o2 = interp.guide(interp.termify(r.fields.get('offset')))
-                n2 = len(interp.guide(d))
-                floor = max(floor, o2 + n2)
-            info[name] = (kind, off, floor)
+            floor = self.held_floor(interp, insp, region)
+            info[name] = (kind, off, floor, st.get('chunk_floor'))
         except (CannotEval, Raised):
-            info[name] = (kind, None, None)
+            info[name] = (kind, None, None, None)
+
+    def held_floor(self, interp, insp, skip=None):
+        """End of the data held by the (non-tail) regions: the stream has
+        delivered at least that many bytes."""
+        floor = 0
+        regs = insp.fields.get('_capture_regions')
+        if not isinstance(regs, DictV):
+            return 0
+        for k, r in zip(regs.keys, regs.vals):
+            if r is skip or not isinstance(r, Obj) or (
+                    r.cls is not None and r.cls.is_subclass(self.end_cls)):
+                continue
+            d = r.fields.get('data')
+            if not (isinstance(d, T) and d.op == 'bytes'):
+                continue
+            o2 = interp.guide(interp.termify(r.fields.get('offset')))
+            n2 = len(interp.guide(d))
+            floor = max(floor, o2 + n2)
+        return floor
 
     def fill(self, interp, region, level):
         if level == NONE:
@@ -392,6 +412,11 @@ class StreamModel:
             holder['insp'] = insp
             for i in range(n):
                 st['chunk'] = i
+                try:
+                    # bytes certainly delivered before this chunk starts
+                    st['chunk_floor'] = model.held_floor(interp, insp)
+                except (CannotEval, Raised):
+                    st['chunk_floor'] = None
                 chunk = T('sym', 'chunk%d' % i)
                 interp.types[chunk] = 'bytes'
                 try:
